@@ -174,6 +174,18 @@ class Gen:
             n = r.choice([1, 2, 3])
             return dict(kind="N", name=name + str(n), nu=n, nl=0,
                         su=[None] * n, sl=[], bk=0)
+        if k in ("a", "s"):
+            # bra-ket (anti)symmetric tensor on a diagonal block
+            name = r.choice(VOCAB_A if k == "a" else VOCAB_S)
+            n = r.choice([1, 1, 2])
+            sp = r.choice([x for x in self.spaces if x != "g"] or ["g"])
+            nm = name + f"{n}{n}d"
+            if self._bk is None:
+                self._bk = {}
+            if nm not in self._bk:
+                self._bk[nm] = r.choice([1, -1, -1])
+            return dict(kind="A" if k == "a" else "S", name=nm, nu=n, nl=n,
+                        su=[sp] * n, sl=[sp] * n, bk=self._bk[nm])
         if k == "D":
             n = r.choice([1, 2, 2])
             return dict(kind="S", name=tensor_names.sym_orb_denom, nu=n, nl=n,
